@@ -23,7 +23,7 @@ ASSUMPTIONS = c01.ASSUMPTIONS + [
     "a plain Read Tag returns everything that fits; only Read Tag Fragmented replies are shortened by the drawn reply capacity",
 ]
 FLOORS = {"quick": {"sweep": 5000, "fragmented-read": 1000, "fragmented-write": 1000, "random": 1000},
-          "thorough": {"sweep": 100000, "random": 20000}}
+          "thorough": {"sweep": 90000, "random": 20000}}
 
 ELEMS = [("SINT", 1), ("INT", 2), ("DINT", 4), ("LINT", 8), ("STR", 8), ("UDT", 12)]
 UDTS = [
